@@ -317,7 +317,8 @@ void faulted_run(const Plan& plan, const Spec& s, const Outcome& golden, const s
     const auto& stacks = sim::fired_fault_stacks();
     for (size_t i = stacks.size() - size_t(fired <= stacks.size() ? fired : stacks.size()); i < stacks.size() && only_optional_faults; i++)
       // absorbed inside ConstPool::add(): gap record or shared sub-constant node; absorbed inside the logger: a lost log line
-      if (!sim::stack_has_function(stacks[i], "ConstPool::add") && !sim::stack_has_function(stacks[i], "Logger::")) only_optional_faults = false;
+      // (log text is produced by Formatter:: / EmitterUtils::log_* into a temporary String before it reaches the Logger)
+      if (!sim::stack_has_function(stacks[i], "ConstPool::add") && !sim::stack_has_function(stacks[i], "Logger::") && !sim::stack_has_function(stacks[i], "Formatter::") && !sim::stack_has_function(stacks[i], "EmitterUtils::log")) only_optional_faults = false;
   }
   if (o.completed && o.output != golden.output && (only_optional_faults || (fired > 0 && sim::fired_fault_stacks_overflowed()))) {
     sim::count("c15.probe.optional_gap_bookkeeping_absorbed");
